@@ -25,7 +25,7 @@ func verifNsParent(p string) string {
 }
 
 type verifNs struct {
-	store *filer.VerifMemStore
+	store *filer.VhMemStore
 	f     *filer.Filer
 	fs    *FilerServer
 	ctx   context.Context
@@ -34,8 +34,8 @@ type verifNs struct {
 // verifNsArbitrary builds an arbitrary well-formed namespace over the universe: every path is absent, a
 // file or a directory, and present only under a directory. File i carries the content byte '0'+i.
 func verifNsArbitrary() (*verifNs, map[string]string) {
-	ns := &verifNs{store: filer.VerifNewMemStore(), ctx: context.Background()}
-	ns.f = filer.VerifNewFiler(ns.store)
+	ns := &verifNs{store: filer.VhNewMemStore(), ctx: context.Background()}
+	ns.f = filer.VhNewFiler(ns.store)
 	ns.fs = &FilerServer{filer: ns.f}
 	model := map[string]string{}
 	for i, p := range verifNsPaths {
@@ -102,7 +102,7 @@ func VerifC18_Create() {
 		want = "dir"
 	}
 	err := ns.f.CreateEntry(ns.ctx, entry, oExcl, false, nil)
-	paths, desc := ns.store.VerifSnapshot()
+	paths, desc := ns.store.VhSnapshot()
 	rt.Cover("created")
 	verifNsWellFormed(desc, paths)
 	old, existed := model[path]
@@ -142,7 +142,7 @@ func VerifC18_Delete() {
 	path := []string{"/a", "/a/b", "/a/b/c", "/a/d", "/e", "/e/f", "/x"}[rt.Choice("path", 7)]
 	recursive := rt.Bool("recursive")
 	err := ns.f.DeleteEntryMetaAndData(ns.ctx, util.FullPath(path), recursive, false, rt.Bool("deletechunks"), false, nil)
-	paths, desc := ns.store.VerifSnapshot()
+	paths, desc := ns.store.VhSnapshot()
 	rt.Cover("deleted")
 	verifNsWellFormed(desc, paths)
 	kind, existed := model[path]
@@ -189,7 +189,7 @@ func VerifC18_Rename() {
 	}
 	dst := string(util.FullPath(newParent).Child(newName))
 	_, err := ns.fs.AtomicRenameEntry(ns.ctx, &filer_pb.AtomicRenameEntryRequest{OldDirectory: oldParent, OldName: oldName, NewDirectory: newParent, NewName: newName})
-	paths, desc := ns.store.VerifSnapshot()
+	paths, desc := ns.store.VhSnapshot()
 	rt.Cover("renamed")
 	verifNsWellFormed(desc, paths)
 	kind, existed := model[src]
